@@ -5,6 +5,8 @@ use serde::{Deserialize, Serialize};
 use crate::boardsim::{self, BoardPlan};
 use crate::enginesim::{self, EnginePlan};
 use crate::linesim::{self, LinePlan};
+use crate::streamsim::{self, StreamPlan};
+use crate::tablesim::{self, RepPlan, TablePlan};
 use crate::common::RunResult;
 use crate::refchess::Pos;
 
@@ -14,6 +16,9 @@ pub enum Plan {
     Board(BoardPlan),
     Engine(EnginePlan),
     Line(LinePlan),
+    Table(TablePlan),
+    Rep(RepPlan),
+    Stream(StreamPlan),
 }
 
 pub struct CheckDef {
@@ -52,6 +57,10 @@ const ENGINE_RULE: &str = "one run = one seeded session plan on ONE engine insta
 pub const CHECKS: &[CheckDef] = &[
     CheckDef { id: "C07", sim: "engine", sim_id: 7, quick_runs: 6_000, thorough_runs: 120_000, level: "exploration", rule: ENGINE_RULE, assumptions: ENGINE_ASSUME, real: ENGINE_REAL, stubbed: ENGINE_STUB, exit_on_violation: true },
     CheckDef { id: "C16", sim: "engine", sim_id: 16, quick_runs: 6_000, thorough_runs: 120_000, level: "exploration", rule: ENGINE_RULE, assumptions: ENGINE_ASSUME, real: ENGINE_REAL, stubbed: ENGINE_STUB, exit_on_violation: true },
+    CheckDef { id: "C11", sim: "symmetry", sim_id: 11, quick_runs: 4_000, thorough_runs: 100_000, level: "exploration", rule: "odd runs (BoardSim, focus C11): seeded operation histories in which the static evaluation (through the hook) of every visited position is compared with minus the evaluation of its colour-flipped twin, terminal positions included (mated side negative, stalemate = draw score); even runs (EngineSim twin mode): engine A plays a session of 2..9 `position; go depth 1..3 | mate cycles` and engine B the colour-flipped session (FENs flipped, every move mirrored), each with the C08 exactness oracle on, and the reported score lines (cp / mate N) must be identical cycle by cycle; distinct = distinct event-log hash", assumptions: ENGINE_ASSUME, real: ENGINE_REAL, stubbed: ENGINE_STUB, exit_on_violation: true },
+    CheckDef { id: "C10", sim: "draw", sim_id: 10, quick_runs: 3_000, thorough_runs: 80_000, level: "exploration", rule: "3 of 4 runs (EngineSim): a session of 2..8 cycles `position <imbalanced FEN with half-move clock 0..150> moves <shuffle-biased legal history, 0..24 plies>; go depth 1 searchmoves m | go depth 1..3`; the reported score must lie between the reference depth-d values computed with repetition leaves (>= 3 occurrences within the irreversible-move window, history + line) valued -contempt and +contempt and with a fifty-move leaf value only from clock 100 on (equality when no draw leaf is in reach); 1 of 4 runs (RepSim): seeded hash histories with irreversible-move marks fed to ZobristHistory::set/count_repetitions through the hook and compared with reference occurrence counting, start indices 0..4990; non-trivial = at least one comparison; distinct = distinct event-log hash", assumptions: ENGINE_ASSUME, real: ENGINE_REAL, stubbed: ENGINE_STUB, exit_on_violation: true },
+    CheckDef { id: "C17", sim: "stream", sim_id: 17, quick_runs: 30_000, thorough_runs: 1_000_000, level: "exploration", rule: "one run = 1..8 games produced by the reference model (legal random play biased towards castling by both sides, promotions, checks, mates; a quarter of them from-position games with a [FEN] tag), written in the Lichess export layout (tag lines, blank line, one-line movetext with move numbers, N... after comments, {clock/eval/free-text} comments, every result token, 0/1/2 trailing newlines) and read through PgnRawParser::with_chunk_size(chunk in {1,2,3,5,8,64,8192,len-1,len,len+1,random}) over a Read that fragments its answers according to the plan (1-byte reads, short reads, shrinking-then-growing reads, random sizes); verdict = (1) yielded games == generated games (tags as a map, SAN and comments verbatim), (2) same result as one read of the whole input, (3) replaying the yielded SAN through pgn_to_bb reaches the reference final position; source truncation and ErrorKind::Interrupted are observational only; non-trivial = at least one move; distinct = distinct hash of (text, chunk size, read pattern)", assumptions: &["reference model produces legal games and canonical SAN (self-tested); harness PGN writer follows the Lichess export layout", "tag values and comments are ASCII without quotes/braces (non-ASCII text is outside what the byte-wise reader is specified for)", "the property quantifies over fragmentations of a COMPLETE input; truncated sources and Interrupted reads are reported in the evidence, never as a verdict"], real: &["inkayaku_pgn::reader::PgnRawParser (ensure_buffer, tokeniser, tag/move/comment readers, Iterator)", "inkayaku_board::Bitboard::pgn_to_bb + make (replay, as pgn_test/src/main.rs does)"], stubbed: &["the file / zstd stream behind Read (FragReader serves the bytes according to the plan)", "pgn_test binary (its replay loop is reproduced by the harness)"], exit_on_violation: false },
+    CheckDef { id: "C18", sim: "table", sim_id: 18, quick_runs: 40_000, thorough_runs: 2_000_000, level: "exploration", rule: "one run = one seeded history of 10..400 put/get/clear/len operations on a HashTable<ZobristHash,u64> of capacity 1..16 over a key universe of 2..40 keys (dense or spread over 64 bits; re-insertion of present and of evicted keys is the norm; every written value unique), compared after EVERY operation with a reference insertion-ordered FIFO map: every live key reads its value, every evicted/cleared key reads nothing, len <= capacity, load_factor = len/capacity; non-trivial = >= 5 operations; distinct = distinct hash of the key sequence", assumptions: &["reference FIFO map (a vector) is correct", "no schedule exists: the table is owned by the search thread alone; the simulated dimension is the operation history; the cache-size knob inside real searches is exercised by the EngineSim checks (TT capacity 1..1024, hashfull <= 1000 enforced by the output grammar, C08 exactness independent of capacity)"], real: &["inkayaku_engine_core::engine::table::HashTable<ZobristHash, u64> through the cfg-gated TableHandle"], stubbed: &["nothing"], exit_on_violation: false },
     CheckDef { id: "C15", sim: "line", sim_id: 15, quick_runs: 4_000, thorough_runs: 120_000, level: "exploration", rule: "7 of 8 runs (LineSim): 300..600 command lines per run - grammar-generated with random spacing / parameter order / subsets, token- and byte-mutated (flip, drop, duplicate, swap, truncate, oversized numbers, bad move tokens, upper case, non-ASCII, duplicated go parameter), or arbitrary bytes - fed through the real ConsoleUciRx::start reader loop, each parse result compared with a reference parser (Exactly / MustErr / Unspecified), plus a 2048-triple slice of the 64x64x6 move-text space checked for display-parse round trip; 1 of 8 runs (EngineSim): a whole engine session whose lines travel through the same seam, so a panic kills the reader thread as in production and a misread shows by its effect; non-trivial = >= 10 lines; distinct = distinct hash of (line, parse result) sequence", assumptions: &["reference UCI parser sim/src/uciref.rs is correct (written from the UCI text and the behaviours pinned by the existing parser tests)", "separators are blanks only; tabs and grey-area syntax (signs, leading zeros, upper-case promotion letters) are classified Unspecified and only required not to panic and not to turn into a different command"], real: &["inkayaku_uci::console::ConsoleUciRx::start / read_next_command", "inkayaku_uci::parser::CommandParser", "inkayaku_uci::UciMove FromStr/Display", "inkayaku_core Square::from_chars, Fen::from_str"], stubbed: &["stdin (read closure)", "the engine behind on_command (LineSim runs); real engine in the EngineSim share"], exit_on_violation: true },
     CheckDef { id: "C08", sim: "engine_exact", sim_id: 8, quick_runs: 2_400, thorough_runs: 60_000, level: "exploration", rule: "one run = one session of 2..9 cycles `position ...; go depth d` (d = 1..3, or 2N-1 on a position with a reference-proven mate in N) on ONE engine instance with randomised knobs (TT capacity down to 1, poll interval, node cost); after every cycle the reported score must equal the exact minimax value computed by the reference alpha-beta search (no TT/killers/PV reuse) with the engine's own static evaluation at the leaves, and the announced move must attain it; distinct = distinct event-log hash", assumptions: ENGINE_ASSUME, real: ENGINE_REAL, stubbed: ENGINE_STUB, exit_on_violation: true },
     CheckDef { id: "C09", sim: "engine_interrupt", sim_id: 9, quick_runs: 96, thorough_runs: 3_000, level: "fault_enumeration", rule: "one run = one plan (position, go depth d, poll interval 512): a dry run yields the poll node counts p1<..<pn (every node count at which the abort flag can be observed); the plan is then executed once per p_i (all of them up to 400, evenly thinned above) and per interrupt kind (stop, quit, simulated-clock movetime expiry), each followed by go depth 1 WITHOUT position, two more interrupted searches and go depth 1 again; evaluations = interrupted sessions executed; distinct = distinct (plan, interruption point, kind) event-log hashes", assumptions: ENGINE_ASSUME, real: ENGINE_REAL, stubbed: ENGINE_STUB, exit_on_violation: true },
@@ -72,6 +81,7 @@ pub fn find(id: &str) -> Option<&'static CheckDef> {
 pub struct Ctx {
     pub pool: Vec<Pos>,
     pub mates: Vec<(Pos, u32)>,
+    pub imbalanced: Vec<Pos>,
 }
 
 impl Ctx {
@@ -93,7 +103,12 @@ impl Ctx {
                 }
             }
         }
-        Ctx { pool, mates }
+        let imbalanced: Vec<Pos> = pool
+            .iter()
+            .filter(|p| p.has_legal_move() && inkayaku_board::Bitboard::from_fen_string(&p.to_fen()).map_or(false, |b| inkayaku_engine_core::verif::evaluate_ongoing(&b).abs() >= 300))
+            .cloned()
+            .collect();
+        Ctx { pool, mates, imbalanced }
     }
 }
 
@@ -108,6 +123,22 @@ pub fn gen_plan(def: &CheckDef, ctx: &Ctx, seed: u64, thorough: bool) -> Plan {
                 Plan::Line(linesim::gen_plan(seed, thorough, &ctx.pool))
             }
         }
+        "symmetry" => {
+            if seed % 2 == 1 {
+                Plan::Board(boardsim::gen_plan("C11", seed, thorough, &ctx.pool))
+            } else {
+                Plan::Engine(enginesim::gen_plan_twin(seed, thorough, &ctx.pool, &ctx.mates))
+            }
+        }
+        "draw" => {
+            if seed % 4 == 0 {
+                Plan::Rep(tablesim::gen_rep_plan(seed, thorough))
+            } else {
+                Plan::Engine(enginesim::gen_plan_draw(seed, thorough, &ctx.imbalanced))
+            }
+        }
+        "stream" => Plan::Stream(streamsim::gen_plan(seed, thorough, &ctx.pool)),
+        "table" => Plan::Table(tablesim::gen_table_plan(seed, thorough)),
         "engine_exact" => Plan::Engine(enginesim::gen_plan_exact(seed, thorough, &ctx.pool, &ctx.mates)),
         "engine_interrupt" => Plan::Engine(enginesim::gen_plan_interrupt(seed, thorough, &ctx.pool)),
         other => panic!("unknown simulator {}", other),
@@ -119,6 +150,9 @@ pub fn exec_plan(plan: &Plan) -> RunResult {
         Plan::Board(p) => boardsim::exec_plan(p),
         Plan::Engine(p) => enginesim::exec_plan(p),
         Plan::Line(p) => linesim::exec_plan(p),
+        Plan::Table(p) => tablesim::exec_table_plan(p),
+        Plan::Rep(p) => tablesim::exec_rep_plan(p),
+        Plan::Stream(p) => streamsim::exec_plan(p),
     }
 }
 
@@ -127,6 +161,9 @@ pub fn shrink_candidates(plan: &Plan) -> Vec<Plan> {
         Plan::Board(p) => boardsim::shrink_candidates(p).into_iter().map(Plan::Board).collect(),
         Plan::Engine(p) => enginesim::shrink_candidates(p).into_iter().map(Plan::Engine).collect(),
         Plan::Line(p) => linesim::shrink_candidates(p).into_iter().map(Plan::Line).collect(),
+        Plan::Table(p) => tablesim::shrink_table(p).into_iter().map(Plan::Table).collect(),
+        Plan::Rep(p) => tablesim::shrink_rep(p).into_iter().map(Plan::Rep).collect(),
+        Plan::Stream(p) => streamsim::shrink_candidates(p).into_iter().map(Plan::Stream).collect(),
     }
 }
 
@@ -134,6 +171,9 @@ pub fn plan_size(plan: &Plan) -> usize {
     match plan {
         Plan::Board(p) => p.ops.len(),
         Plan::Line(p) => p.lines.len() + p.move_sweep.1 as usize,
+        Plan::Table(p) => p.ops.len(),
+        Plan::Rep(p) => p.seq.len() + p.start_index as usize,
+        Plan::Stream(p) => p.games.iter().map(|g| 1 + g.sans.len() + g.tags.len()).sum::<usize>() + p.frag.len(),
         Plan::Engine(p) => p.cycles.iter().map(|c| 4 + c.events.len() + c.pre_lines.len() + c.post_lines.len() + c.jumps.len() + match &c.pos { enginesim::PosSpec::Set { moves, .. } => 1 + moves.len(), _ => 1 } + c.go.depth.unwrap_or(0) as usize).sum(),
     }
 }
